@@ -131,6 +131,18 @@ def cases(rng, keys):
     e3 = copy.deepcopy(e)
     e3["content"] = "changed"
     out.append(("content-changed", e3))
+    # an answer that also carries a NIP-26 delegation tag of somebody else (validly signed for this key; conditions that do
+    # not cover kind 22242 / expired long ago; or forged): whoever it names, the identity is the signer's
+    import hashlib
+    from coincurve import PrivateKey as CPrivateKey
+
+    victim = CPrivateKey(bytes([77]) * 32)
+    vpub = victim.public_key_xonly.format().hex()
+    for label, cond in (("deleg-valid-kind1-expired", "kind=1&created_at<1600000000"), ("deleg-valid-any", "kind=22242")):
+        to_sign = ":".join(["nostr", "delegation", sk.public_key.hex(), cond]).encode("utf8")
+        dsig = victim.sign_schnorr(hashlib.sha256(to_sign).digest(), None).hex()
+        out.append((label, build(rng, sk, extra=[["delegation", vpub, cond, dsig]])))
+    out.append(("deleg-forged", build(rng, sk, extra=[["delegation", vpub, "kind=22242", "00" * 64]])))
     for nd in ([], "x", None, 5, [e]):
         out.append(("nondict", nd))
     e4 = copy.deepcopy(e)
@@ -245,7 +257,8 @@ def run(report, tier, seed):
         "the neighbourhood of a valid NIP-42 answer under an injected clock: ages ±599/±600/±601 s, kinds 22241/22242/"
         "22243, relay urls exact/prefix/suffix/empty/case-changed/missing, challenges exact/prefix/empty/other/doubled/"
         "missing, duplicated relay/challenge tags in both orders, value-less tags, bad signature, swapped pubkey, changed "
-        "content, non-dict payloads, unknown fields; relay_urls unset (default), one string, a list; plus identity "
+        "content, answers that also carry a NIP-26 delegation tag naming another key (valid for other kinds / expired / forged), "
+        "non-dict payloads, unknown fields; relay_urls unset (default), one string, a list; plus identity "
         "through web.start_client (replay on another connection, failed AUTH after a good one)")
     report.assumptions += ["unpredictability of the OS entropy source behind secrets.token_hex(16) is trusted; observed: distinctness, length, and that challenges neither depend on nor advance the process-wide Mersenne Twister",
                            "clock: auth.time replaced by a constant integer"]
